@@ -364,6 +364,15 @@ def rule_e(model, rep):
                   "the stub module that replaces itself still serves attribute lookups from its replacement",
                   witness="fresh process: T1 runs `from passlib.hash import sha256_crypt`; T2 starts `from passlib.hash import md5_crypt` while hash.py is executing: "
                           "T2 waits on the import lock, continues with the stub module and gets ImportError: cannot import name 'md5_crypt'")
+        # ... and from the moment the proxy is in sys.modules, `import passlib.hash` in another thread returns at once (the proxy carries no
+        # __spec__, so the import system does not make that thread wait for the module lock), while the import system itself binds the attribute
+        # `hash` on the package only after the module body has returned: the stub must bind it before it publishes the proxy
+        idx = hu.tree.body.index(swaps[0])
+        bound = [n for n in hu.tree.body[:idx] if isinstance(n, ast.Assign) and isinstance(n.targets[0], ast.Attribute) and n.targets[0].attr == "hash" and ast.unparse(n.value) == repl]
+        rep.check(bool(bound), R, "passlib.hash:<module> package attribute", ast.unparse(bound[0]) if bound else f"sys.modules[__name__] = {repl}  # `passlib.hash` not bound on the package before the swap",
+                  "the package attribute `passlib.hash` is bound to the proxy before the proxy is published in sys.modules",
+                  witness="fresh process: T1 is inside `import passlib.hash` just after the swap; T2 runs `import passlib.hash; passlib.hash.md5_crypt` and gets AttributeError: cannot access "
+                          "submodule 'hash' of module 'passlib'")
     # shared lookup caches are filled idempotently: an `assert` on what the cache holds turns a harmless lost race into an error
     DG = "passlib.crypto.digest"
     lh = model.func(DG, "lookup_hash")
@@ -445,7 +454,34 @@ def run(model, rep):
     rep.assumptions = ["CPython: attribute store/load are atomic; `with lock:` gives mutual exclusion and happens-before",
                        "import of a module is serialised by the interpreter's import lock"]
     rule_a(model, rep)
+    rule_failed_load_window(model, rep)
     rule_b(model, rep)
     rule_cd(model, rep)
     rule_e(model, rep)
     rule_f(model, rep)
+
+
+def rule_failed_load_window(model, rep):
+    """the unlocked "needs initialising?" test of LazyCryptContext reads two attributes one after the other (`_lazy_kwds is not None or _lazy_busy`).
+    _lazy_init clears `_lazy_kwds` *before* the attempt and, when the attempt fails, puts it back and then clears `_lazy_busy`: a reader that samples
+    `_lazy_kwds` during the attempt (None) and `_lazy_busy` after the failure (False) concludes "initialised" on an object that is unloaded again"""
+    R = "C19.a-guarded-lazy-init"
+    C = "passlib.context"
+    fn = model.func(C, "LazyCryptContext._lazy_init")
+    ga = model.func(C, "LazyCryptContext.__getattribute__")
+    unit = model.unit(C)
+    tries = [t for t in walk_no_nested(fn) if isinstance(t, ast.Try)]
+    cleared_before = [a for a in walk_no_nested(fn) if isinstance(a, ast.Assign) and ast.unparse(a.targets[0]) == "self._lazy_kwds" and ast.unparse(a.value) == "None"
+                      and unit.enclosing(a, ast.Try) is None and tries and (a.lineno, a.col_offset) < (tries[0].lineno, tries[0].col_offset)]
+    restored = [a for t in tries for h in t.handlers for a in ast.walk(h) if isinstance(a, ast.Assign) and ast.unparse(a.targets[0]) == "self._lazy_kwds" and ast.unparse(a.value) != "None"]
+    two_reads = sum(1 for c in ast.walk(ga) if isinstance(c, ast.Call) and ast.unparse(c.func) in ("getattribute", "object.__getattribute__") and len(c.args) == 2
+                    and isinstance(c.args[1], ast.Constant) and c.args[1].value in ("_lazy_kwds", "_lazy_busy")) >= 2
+    s = site(C, "LazyCryptContext._lazy_init") + " failed-load window"
+    if cleared_before and restored and two_reads:
+        rep.violation(R, s, "self._lazy_kwds = None  # before the attempt; restored by the except clause, then _lazy_busy is cleared",
+                      "while a first load is failing, the pair (_lazy_kwds, _lazy_busy) passes through (None, True) -> (pending, True) -> (pending, False); a second thread that reads "
+                      "_lazy_kwds in the first state and _lazy_busy in the last sees (None, False) = 'initialised'",
+                      witness="LazyCryptContext(..., onload=f) with f raising once: T1's first hash() is inside onload; T2 reads _lazy_kwds (None); T1's load fails; T2 reads _lazy_busy (False), "
+                              "skips initialisation and calls CryptContext.hash on the unloaded object: TypeError(\"'NoneType' object is not callable\")")
+    else:
+        rep.hold(R, s, "no state in which both guards read 'done' on an unloaded object")
